@@ -76,7 +76,7 @@ def write_tokens(ctx):
     return p
 
 
-BASE = dict(Tok="<- MCTok", NegBulk="reject")
+BASE = dict(Tok="<- MCTok", NegBulk="index", Panics="recover")
 
 
 def model_error(r, what):
@@ -200,37 +200,38 @@ MCAlpha == {%s}
 """ % (name, tok_def(), sset(SYNTAXES), C_ECHO, C_SET, ", ".join(map(str, rep)), ", ".join(map(str, SIM_ALPHABET)))
 
 
-def mal_cfg(spec, negbulk, invariants=True):
+def mal_cfg(spec, negbulk, invariants=True, panics="recover"):
     # the framing of malformed input is compared with the intended sniffing rule (first LF-terminated line; fixed in aa35bd8)
     return ("SPECIFICATION %s\n" % spec +
-            cfg_consts(Tok="<- MCTok", NegBulk=negbulk, Sniff="line", Kinds="<- MCKinds", BaseCmds="<- MCCmds",
+            cfg_consts(Tok="<- MCTok", NegBulk=negbulk, Panics=panics, Sniff="line", Kinds="<- MCKinds", BaseCmds="<- MCCmds",
                        RepBytes="<- MCRep", Ids="<- MCIds", SimLen=40, SimAlphabet="<- MCAlpha") +
             ("INVARIANT Contained ErrorCloses\n" if invariants else ""))
 
 
 def gen_mal(ctx, name, rep, timeout=1500):
-    r = ctx.tlc(name, ["Proto.tla", "ProtoMal.tla"], mal_module(name, rep), mal_cfg("Spec", "reject"), workers=8, timeout=timeout)
+    # as coded today: lengths are not range-checked (NegBulk = index) but a parser panic is recovered per command
+    r = ctx.tlc(name, ["Proto.tla", "ProtoMal.tla"], mal_module(name, rep), mal_cfg("Spec", "index"), workers=8, timeout=timeout)
     if not r["ok"]:
         model_error(r, name)
     beh = os.path.join(r["dir"], "cases.ndjson")
     n = ctx.extract_tr(r["out"], beh)
-    ctx.log("TLC %s: %d single-operator mutations; Contained and ErrorCloses hold on the intended design" % (name, n))
+    ctx.log("TLC %s: %d single-operator mutations; Contained and ErrorCloses hold on the design as coded (panics recovered per command)" % (name, n))
     return r, beh, n
 
 
 def gen_mal_ascoded(ctx, name, rep):
     """Design-level: with the bulk length check as coded, TLC refutes Contained (the model predicts the crash)."""
-    r = ctx.tlc(name, ["Proto.tla", "ProtoMal.tla"], mal_module(name, rep), mal_cfg("Spec", "index"), workers=8,
+    r = ctx.tlc(name, ["Proto.tla", "ProtoMal.tla"], mal_module(name, rep), mal_cfg("Spec", "index", panics="crash"), workers=8,
                 timeout=900, expect_violation=True)
     if r["violated"] != "Contained":
         raise common.Infra("as-coded configuration (NegBulk=index): TLC was expected to refute Contained, got %s" % r["violated"])
-    ctx.log("TLC %s: with NegBulk = index (as coded) Contained is refuted: the design as implemented crashes on a negative bulk length" % name)
+    ctx.log("TLC %s: with Panics = crash (as coded before 59d973f/9fc07cf) Contained is refuted: an unchecked length indexes outside the packet and kills the process" % name)
     return r
 
 
 def gen_mal_sim(ctx, name, num, timeout=3000):
     depth = 200
-    r = ctx.tlc(name, ["Proto.tla", "ProtoMal.tla"], mal_module(name, REP_QUICK), mal_cfg("SimSpec", "reject", invariants=False),
+    r = ctx.tlc(name, ["Proto.tla", "ProtoMal.tla"], mal_module(name, REP_QUICK), mal_cfg("SimSpec", "index", invariants=False),
                 workers=1, simulate=max(1, num * 2 // depth), depth=depth, timeout=timeout)
     if not r["ok"]:
         model_error(r, name)
@@ -367,7 +368,7 @@ def run(ctx):
             "liveness_checks": res["mal"][0]["liveness_checks"] + res["malsim"][0]["liveness_checks"],
             "process_deaths": res["mal"][0]["process_deaths"] + res["malsim"][0]["process_deaths"],
             "reply_frames_compared": res["mal"][0]["reply_frames_compared"] + res["malsim"][0]["reply_frames_compared"],
-            "as_coded_deviation_refuted_by_TLC": "NegBulk=index violates %s" % res["ascoded"],
+            "as_coded_deviation_refuted_by_TLC": "NegBulk=index with Panics=crash (before the fix) violates %s" % res["ascoded"],
         },
         "exhaustive": True,
         "explanation": "ProtoGen's reachable graph contains every segmentation of every generated stream (Seg(n) for every n); "
